@@ -3,6 +3,7 @@ package html
 import (
 	"fmt"
 	"io"
+	"regexp"
 	"strings"
 
 	"github.com/elliotchance/gedcom/v39"
@@ -108,8 +109,13 @@ func PageSources() string {
 	return "sources.html"
 }
 
+// sourcePageRegexp matches everything that must not be part of the file name
+// of a source page. The pointer comes from the file, it can be anything.
+var sourcePageRegexp = regexp.MustCompile("[^A-Za-z0-9_-]+")
+
 func PageSource(source *gedcom.SourceNode) string {
-	return fmt.Sprintf("%s.html", source.Pointer())
+	return fmt.Sprintf("%s.html",
+		sourcePageRegexp.ReplaceAllString(source.Pointer(), "-"))
 }
 
 func PageStatistics() string {
